@@ -47,41 +47,31 @@ Proof. exact step_stopping_mono. Qed.
 (* ---- callbacks ---- *)
 (* The full statement of the property: whenever the pool is done (nothing queued,
    nothing running) every command that was put got exactly one callback. *)
-Definition c42_one_callback (fx : bool) : Prop :=
+Definition c42_one_callback_stmt (fx : bool) : Prop :=
   forall size es p os,
     run fx (new_pool size) es = (p, os) -> NoDup (puts_of es) ->
     p_queue p = [] -> p_running p = [] ->
     forall i, In i (puts_of es) -> occ i (callbacks_of os) = 1.
 
-(* It is FALSE for the code as it exists.  Witness 1: pool size 1, jobs-submit
-   commands 0 (running) and 1 (queued), set_stopping, 0 exits: process() drops 1
-   with ret_code 999 and no callback.  Witness 2 (c42_one_callback_refuted_terminate):
-   any queued command at terminate().  FINDING (known_findings.d/C42.json). *)
-Theorem c42_one_callback_refuted : ~ c42_one_callback false.
+(* It holds for the code as it is now (fix 2237225: process() and terminate()
+   pass the callbacks to _run_command_exit when they take a command off the queue
+   while stopping; the model's [drops_call_back] = true is what the correspondence
+   stream validates).  Commands still RUNNING at terminate() are outside it
+   (p_running p = [] is a hypothesis): see the open finding in
+   known_findings.d/C42.json. *)
+Theorem c42_one_callback : c42_one_callback_stmt drops_call_back.
 Proof.
-  intros H.
-  pose (c0 := {| c_id := 0; c_submit := true; c_bad := false |}).
-  pose (c1 := {| c_id := 1; c_submit := true; c_bad := false |}).
-  specialize (H 1 [EPut c0; EPut c1; EProcess []; ESetStopping; EProcess [0]] _ _ eq_refl).
-  vm_compute in H.
-  assert (Hn : NoDup [0; 1]) by (repeat constructor; cbn; intuition discriminate).
-  specialize (H Hn eq_refl eq_refl 1 (or_intror (or_introl eq_refl))). discriminate H.
+  intros size es p os E Hnd Hq Hr i Hi. change drops_call_back with true in E.
+  destruct (run_exactly_once_or_dropped _ _ _ _ _ E Hnd Hq Hr i Hi) as [[H _]|[_ H]]; [exact H|].
+  rewrite (run_fixed_no_drop _ _ _ _ E) in H. destruct H.
 Qed.
 
-Theorem c42_one_callback_refuted_terminate :
-  exists es p os, run false (new_pool 1) es = (p, os) /\ NoDup (puts_of es) /\
-    p_queue p = [] /\ p_running p = [] /\ In 1 (puts_of es) /\
-    occ 1 (callbacks_of os) = 0 /\ In 1 (dropped_of os).
-Proof.
-  exists [EPut {| c_id := 0; c_submit := false; c_bad := false |};
-          EPut {| c_id := 1; c_submit := false; c_bad := false |};
-          EProcess []; ETerminate [0]].
-  eexists. eexists. split; [vm_compute; reflexivity|].
-  repeat split; try (vm_compute; tauto).
-  repeat constructor; cbn; intuition discriminate.
-Qed.
+(* nothing is ever dropped by the code as it is now *)
+Theorem c42_nothing_dropped : forall size es p os,
+  run drops_call_back (new_pool size) es = (p, os) -> dropped_of os = [].
+Proof. intros size es p os E. exact (run_fixed_no_drop _ _ _ _ E). Qed.
 
-(* What does hold for the code as it is: *)
+(* For both variants: *)
 (* (a) conservation: commands put = queued + running + called back + dropped *)
 Theorem c42_conservation : forall fx size es p os i,
   run fx (new_pool size) es = (p, os) ->
@@ -92,8 +82,8 @@ Proof.
   cbn [new_pool p_queue p_running map] in H. rewrite !occ_nil in H. lia.
 Qed.
 
-(* (b) at most one callback, ever; nobody is both called back and dropped, or
-   called back while still queued/running *)
+(* (b) at most one callback, ever; nobody is called back while still
+   queued/running (or, pre-fix, both called back and dropped) *)
 Theorem c42_at_most_one_callback : forall fx size es p os,
   run fx (new_pool size) es = (p, os) -> NoDup (puts_of es) ->
   NoDup (ids (p_queue p) ++ ids (p_running p) ++ callbacks_of os ++ dropped_of os).
@@ -108,9 +98,39 @@ Theorem c42_one_callback_unless_dropped_while_stopping : forall fx size es p os,
     \/ (occ i (callbacks_of os) = 0 /\ In i (dropped_of os)).
 Proof. exact run_exactly_once_or_dropped. Qed.
 
-(* (d) and drops happen in exactly two places: terminate() (any queued command)
-   and process() while stopping (queued jobs-submit commands) *)
-Theorem c42_dropped_only_in_two_places : forall p e p' o,
+(* PRE-FIX CODE ONLY (parameter value false = `self._run_command_exit(ctx)`
+   without the callbacks, before 2237225).  The full statement was false.
+   Witness 1: pool size 1, jobs-submit commands 0 (running) and 1 (queued),
+   set_stopping, 0 exits: process() dropped 1 with ret_code 999 and no callback.
+   Witness 2: any queued command at terminate().  Kept as the record of the fixed
+   finding; both witnesses stay in the stream's corpus as regression cases. *)
+Theorem c42_one_callback_refuted_for_prefix_code : ~ c42_one_callback_stmt false.
+Proof.
+  intros H.
+  pose (c0 := {| c_id := 0; c_submit := true; c_bad := false |}).
+  pose (c1 := {| c_id := 1; c_submit := true; c_bad := false |}).
+  specialize (H 1 [EPut c0; EPut c1; EProcess []; ESetStopping; EProcess [0]] _ _ eq_refl).
+  vm_compute in H.
+  assert (Hn : NoDup [0; 1]) by (repeat constructor; cbn; intuition discriminate).
+  specialize (H Hn eq_refl eq_refl 1 (or_intror (or_introl eq_refl))). discriminate H.
+Qed.
+
+Theorem c42_one_callback_refuted_terminate_for_prefix_code :
+  exists es p os, run false (new_pool 1) es = (p, os) /\ NoDup (puts_of es) /\
+    p_queue p = [] /\ p_running p = [] /\ In 1 (puts_of es) /\
+    occ 1 (callbacks_of os) = 0 /\ In 1 (dropped_of os).
+Proof.
+  exists [EPut {| c_id := 0; c_submit := false; c_bad := false |};
+          EPut {| c_id := 1; c_submit := false; c_bad := false |};
+          EProcess []; ETerminate [0]].
+  eexists. eexists. split; [vm_compute; reflexivity|].
+  repeat split; try (vm_compute; tauto).
+  repeat constructor; cbn; intuition discriminate.
+Qed.
+
+(* pre-fix code: drops happened in exactly two places: terminate() (any queued
+   command) and process() while stopping (queued jobs-submit commands) *)
+Theorem c42_dropped_only_in_two_places_for_prefix_code : forall p e p' o,
   step false p e = (p', o) ->
   forall i, In i (o_dropped o) ->
     (exists done, e = ETerminate done /\ In i (ids (p_queue p)))
@@ -118,17 +138,9 @@ Theorem c42_dropped_only_in_two_places : forall p e p' o,
         exists c, In c (p_queue p) /\ c_id c = i /\ c_submit c = true).
 Proof. exact step_drop_reason. Qed.
 
-(* With the proposed fix (callbacks passed to _run_command_exit at those two
-   places) nothing is dropped and the full statement holds. *)
-Theorem c42_one_callback_fixed : c42_one_callback true.
-Proof.
-  intros size es p os E Hnd Hq Hr i Hi.
-  destruct (run_exactly_once_or_dropped _ _ _ _ _ E Hnd Hq Hr i Hi) as [[H _]|[_ H]]; [exact H|].
-  rewrite (run_fixed_no_drop _ _ _ _ E) in H. destruct H.
-Qed.
-
 (* ---- non-vacuity: a history with a full pool, an OSError, exits and a late put ---- *)
-Example c42_ex_history :
+(* (pre-fix variant: command 1 is dropped) *)
+Example c42_ex_history_prefix_code :
   let c i s b := {| c_id := i; c_submit := s; c_bad := b |} in
   let '(p, os) := run false (new_pool 1)
      [EPut (c 0 false false); EPut (c 1 true false); EPut (c 2 false true);
@@ -136,9 +148,10 @@ Example c42_ex_history :
   (p_queue p, p_running p, callbacks_of os, dropped_of os) = ([], [], [3; 0; 2], [1]).
 Proof. vm_compute. reflexivity. Qed.
 
-Example c42_ex_history_fixed :
+(* the code as it is now *)
+Example c42_ex_history :
   let c i s b := {| c_id := i; c_submit := s; c_bad := b |} in
-  let '(p, os) := run true (new_pool 2)
+  let '(p, os) := run drops_call_back (new_pool 2)
      [EPut (c 0 false false); EPut (c 1 true false); EPut (c 2 false true); EPut (c 3 true false);
       EProcess []; EProcess [0]; EClose; EPut (c 4 false false); EProcess [1; 3]] in
   (p_queue p, p_running p, callbacks_of os, dropped_of os) = ([], [], [0; 2; 4; 1; 3], []).
